@@ -512,6 +512,23 @@ def is_guard_result(cr, body, place):
     return len(args) == 2 and args[1].adt_path() == ERR
 
 
+def always_err(fn):
+    """every write to the return place is an Err aggregate or the propagation of a callee's error (`?`): the function never returns Ok"""
+    n = 0
+    for bi, si, st in M.iter_stmts(fn):
+        if st.get("p") == 0 and "rv" in st:
+            rv = st["rv"]
+            if not (rv.get("r") == "agg" and rv.get("adt") == ai.RESULT and rv.get("vi") == 1):
+                return False
+            n += 1
+    for bi, t in M.iter_calls(fn):
+        if t.get("dest") == 0:
+            if M.norm_path(t["fn"].get("decl", "")) != "std::ops::FromResidual::from_residual":
+                return False
+            n += 1
+    return n >= 1
+
+
 def errors_propagate(ctx, cr):
     """`an evaluation error is raised exactly when the semantics is undefined` has a structural half: no function of the evaluator turns a
     callee's error into a value.  For every function under rules:: reachable from the entry points that returns the crate's Result, on
@@ -537,6 +554,10 @@ def errors_propagate(ctx, cr):
                     return None
                 if not callee.get("local") and M.norm_path(callee.get("path", "")).startswith(("std::result::", "std::option::")):
                     return None     # map_err / ok_or / and_then ... re-shape a Result that already exists; they are not a second error source
+                if callee.get("local") and callee.get("key") in cr.fns and always_err(cr.fns[callee["key"]]) and term.get("to") is not None and st.top is st.frames[0]:
+                    # a helper that only ever returns Err (`fn bail(..) -> Result<T> { record; Err(e) }`): calling it is how the error is returned
+                    mon = st.mon or Mon()
+                    return [(("enum", ai.RESULT, 1, (("sym", "E:" + M.norm_path(callee.get("path", "")).split("::")[-1]),)), mon)]
                 if term.get("to") is not None and st.top is st.frames[0] and is_guard_result(cr, st.top.body, term["dest"]):
                     mon = st.mon or Mon()
                     site = M.norm_path(callee.get("path", "")).split("::")[-1]
